@@ -9,6 +9,7 @@
    time an Open of the underlying sink takes, one = one second (all in the same arbitrary time unit).
    Environment assumption of all theorems: wf_trace - a resurrector is opened once, before anything else
    happens to it (heap.py opens a node when it is added and never again). *)
+From Coq Require Import Reals.
 From Scales Require Import Model.Base Model.Resurrector Proofs.ResurrectorP.
 Local Open Scope Z_scope.
 
@@ -20,25 +21,25 @@ Theorem C09_fail_fast : forall next tplus w0 odur t0 tr s, 0 <= odur -> wf_trace
 Proof.
   intros next tplus w0 odur t0 tr s Ho Hwf H Hd.
   pose proof (reach_inv next tplus w0 odur Ho t0 tr s Hwf H) as HI.
-  split; [apply (down_fail_fast next tplus w0 odur s HI Hd)|].
-  split; [unfold obs_state; rewrite Hd; reflexivity|apply (i_down _ _ HI Hd)].
+  split; [eapply down_fail_fast; eauto|].
+  split; [unfold obs_state; rewrite Hd; reflexivity|eapply i_down; eauto].
 Qed.
 Print Assumptions C09_fail_fast.
 
 (* The sleeps of one outage (hist, newest first) are w0, next w0, next (next w0), ...; with
-   H1 (w >= 1 s -> w <= next w), H2 (next w <= max) and 1 s <= w0 <= max they never shrink and never exceed
+   H1 (1 s <= w <= max -> w <= next w), H2 (next w <= max) and 1 s <= w0 <= max they never shrink and never exceed
    max; the greenlet's current wait interval is the newest of them. *)
 Theorem C09_backoff : forall next tplus w0 odur one wmax t0 tr s, 0 <= odur ->
-  (forall w, one <= w -> w <= next w) -> (forall w, next w <= wmax) -> one <= w0 /\ w0 <= wmax ->
+  (forall w, one <= w -> w <= wmax -> w <= next w) -> (forall w, next w <= wmax) -> one <= w0 /\ w0 <= wmax ->
   wf_trace tr -> run next tplus w0 odur (init t0) tr = Some s ->
   chain next w0 (hist s) /\ nonincr (hist s) /\ Forall (fun w => w0 <= w /\ w <= wmax) (hist s) /\
   (forall w, cur_wait (gl s) = Some w -> exists r, hist s = w :: r).
 Proof.
   intros next tplus w0 odur one wmax t0 tr s Ho H1 H2 Hw0 Hwf H.
   pose proof (reach_inv next tplus w0 odur Ho t0 tr s Hwf H) as HI.
-  pose proof (i_hist _ _ _ HI) as C.
-  split; [exact C|]. split; [exact (chain_nonincr next w0 one wmax H1 H2 Hw0 _ C)|].
-  split; [exact (chain_bounds next w0 one wmax H1 H2 Hw0 _ C)|exact (i_wait _ _ _ HI)].
+  pose proof (i_hist _ _ _ _ HI) as C.
+  split; [exact C|]. split; [eapply chain_nonincr; eauto|].
+  split; [eapply chain_bounds; eauto|eapply i_wait; eauto].
 Qed.
 Print Assumptions C09_backoff.
 
@@ -112,8 +113,8 @@ Proof.
     - split; intros Hin; apply Hwf; apply in_or_app; [left; exact Hin|right; right; exact Hin]. }
   destruct Hwf1 as [Hwf1 Hn2].
   pose proof (reach_inv next tplus w0 odur Ho t0 tr1 s1 Hwf1 H1) as HI.
-  destruct (close_quiet next tplus w0 odur s1 s2 o HI H2) as [Q C].
-  destruct (quiet_exec next tplus w0 odur tr2 s2 s3 outs Q Hn2 H3) as [[Qa [Qb Qc]] [C2 [N1 [N2 N3]]]].
+  destruct (close_quiet _ _ _ _ _ _ _ HI H2) as [Q C].
+  destruct (quiet_exec _ _ _ _ _ _ _ _ Q Hn2 H3) as [[Qa [Qb Qc]] [C2 [N1 [N2 N3]]]].
   repeat split; auto. unfold is_down. rewrite Qc. reflexivity.
 Qed.
 Print Assumptions C09_close_stops.
@@ -122,10 +123,9 @@ Print Assumptions C09_close_stops.
    for w >= 1 it does not shrink.  (For w < 1 it does - a configured initial_wait_interval below one second
    makes the retry loop spin faster and faster; the shipped default is 5.)  The doubles that actually occur
    are checked against H1/H2 on every run (Resurrector.tab_ok). *)
-Theorem C09_Rpower_grows : forall w wmax : Reals.Rdefinitions.R,
-  Reals.Rdefinitions.Rle 1 w -> Reals.Rdefinitions.Rle w wmax ->
-  Reals.Rdefinitions.Rle w (Reals.Rbasic_fun.Rmin (Reals.Rpower.Rpower w (Reals.Rdefinitions.Rdiv 6 5)) wmax) /\
-  Reals.Rdefinitions.Rle (Reals.Rbasic_fun.Rmin (Reals.Rpower.Rpower w (Reals.Rdefinitions.Rdiv 6 5)) wmax) wmax.
+Theorem C09_Rpower_grows : forall w wmax : Rdefinitions.R, (1 <= w)%R -> (w <= wmax)%R ->
+  (w <= Rbasic_fun.Rmin (Rpower.Rpower w (6 / 5)) wmax)%R /\
+  (Rbasic_fun.Rmin (Rpower.Rpower w (6 / 5)) wmax <= wmax)%R.
 Proof. intros w wmax H Hm. split; [apply RealSide.backoff_real_H1; assumption|apply RealSide.backoff_real_H2]. Qed.
 Print Assumptions C09_Rpower_grows.
 
@@ -142,7 +142,7 @@ Example C09_nonvacuous :
            OCreate 3; OOpenUnder 3; OCloseUnder 3; OCreate 4; OOpenUnder 4; OCloseUnder 4; OFailFast;
            OCreate 5; OOpenUnder 5; OForward 5; OCloseUnder 5; OForward 5])
   /\ wf_trace ex_trace
-  /\ (forall w, 1 <= w -> w <= ex_next w) /\ (forall w, ex_next w <= 8) /\ (forall t w, Z.add t w <= t + w + 0).
+  /\ (forall w, 1 <= w -> w <= 8 -> w <= ex_next w) /\ (forall w, ex_next w <= 8) /\ (forall t w, Z.add t w <= t + w + 0).
 Proof.
   split; [vm_compute; reflexivity|]. split; [unfold wf_trace; cbn; intuition discriminate|].
   unfold ex_next. repeat split; intros; lia.
@@ -154,11 +154,12 @@ Example C09_nonvacuous_honest :
     honest_run ex_next Z.add 2 0 (fun t => t < 10 \/ 30 <= t) s1 (skipn 16 ex_trace).
 Proof.
   eexists. split; [vm_compute; reflexivity|]. split; [reflexivity|]. split; [reflexivity|].
-  cbn. repeat split; auto; intros; try lia. right; lia.
+  cbn. repeat split; auto; intros; right; lia.
 Qed.
 
 (* the clock of the simulation: binary64 addition of a time and a wait (units of 2^-52 s) *)
 Example C09_fl_add_example :
-  (* 1028.0 + 2.2973967099940698 = 1030.2973967099942 *)
-  fl_add (1028 * 2 ^ 52) 10346554502053765 = 4531905959684833 * 2 ^ 10.
-Proof. vm_compute. reflexivity. Qed.
+  (* 1028.0 + 2.2973967099940698 = 1030.297396709994 (not exact: the sum is rounded to 53 bits) *)
+  fl_add 4629700416936869888 10346554967051496 = 4640046971903921152 /\
+  4629700416936869888 + 10346554967051496 = 4640046971903921384.
+Proof. split; vm_compute; reflexivity. Qed.
